@@ -6,6 +6,14 @@ ROOT = os.path.dirname(os.path.dirname(os.path.abspath(__file__)))
 
 # id -> (technique, level text, level note, design ref)
 CLAIMED = {
+ "C01": ("SSA dataflow over Read results (use-before-error-test), constant provenance of the requested block-checksum length, loop-exit analysis of the whole-file send loop; plus the necessary conditions shared with C02, C12, C14/FIELDS and C15/W5 re-evaluated under their own rule names",
+         "Partial, structural; byte equality itself is NOT decided. Decides necessary conditions of 'a transfer of a static tree succeeds and reproduces the bytes': block checksums are requested at full MD4 length (there is no redo pass for a file whose whole-file checksum fails); every direct Read in the data path uses the bytes it returned before acting on the error (io.EOF may come with data); the whole-file path writes exactly buf[:n] after its length, leaves its loop only on the Read's error and ends with the end-of-data token; and, shared: the delta clauses of C02, the update-rule tables of C12, encoder/decoder agreement of the file-list fields (C14/FIELDS) and identical numbering on both ends (C15/W5).",
+         "Trusted: MD4, os.Root/renameio. Not covered: offsets/window/block arithmetic, token encoding, name mapping of source arguments, option combinations. One genuine defect repaired by a fix: commit (F24).",
+         "DESIGN.md §13"),
+ "C16": ("SSA guard dominance at the whole-file request sites, natural-loop membership of the candidate-rejection edges, store analysis of the scan position, allocation-site/loop analysis of the per-file lookup structures, structural shape of the block-checksum loop",
+         "Partial, structural; the bound on literal bytes is NOT decided. Decides necessary conditions of 'unchanged data is found again': the generator requests the whole file only when the destination is missing, not regular or cannot be opened, and otherwise sums the opened destination file; every block up to SumSizesSqroot's count gets its weak and strong sum over the bytes just read; the sender tries every candidate with the window's tag (rejections continue the candidate loop) at every byte offset (outside the match path the scan position only ever advances by one, on every iteration); the lookup structures and Transfer.lastMatch are rebuilt/reset for every file.",
+         "Trusted: the checksum definitions (C02/ONE-DEFINITION). Not covered: rolling-checksum algebra, tag function, block-size selection, the end bound — arithmetic over runtime data.",
+         "DESIGN.md §13"),
  "C18": ("store/effect scan over the session call tree (escape-edge VTA graph), allocation-site provenance of session objects, per-goroutine field access partition, SSA dominance for joins, structural shape of the cancellation select",
          "Partial. Decides the data-race side structurally (there are no locks, so shared state must not be written): no session-reachable store to package-level or server-wide state; session objects are allocated per session; the only package-level variables session code touches are a reviewed allow-table; the generator and receiver goroutines partition the fields they write; results are read after the join. For termination only the necessary condition that waitFor returns on cancellation without waiting for the abandoned goroutine. Deadlock freedom/termination under all schedules is NOT decided (not applicable to static analysis).",
          "Trusted: errgroup/context semantics; embedding program's logger. Authorised-SSH users re-entering the CLI are a new program run, not session code.",
@@ -82,8 +90,6 @@ CLAIMED = {
 
 PENDING = "rule set designed (DESIGN.md §3) but its checker is not built yet in this snapshot; not claimed until it runs"
 NA = {
- "C01": "byte equality of whole trees for all inputs is a runtime-value property; no sound static argument bounds it. Its structural preconditions are decided under C03, C04, C12, C14, C15.",
- "C16": "bounds on literal bytes depend on rolling-checksum arithmetic and hash hits over file data; no structural necessary condition that is not a frozen-expression match.",
 }
 
 def main():
@@ -124,7 +130,7 @@ def main():
         }],
         "checks": checks,
         "not_applicable": na,
-        "notes": "100 rules over 18 properties. All checks are static (technique family fixed by the task). quick = linux/amd64; thorough = linux/amd64+386+arm64 plus checker self-tests. Genuine defects found are repaired by fix: commits in /repo or listed in known_findings.json; see DESIGN.md §4.",
+        "notes": "Rule sets for all 20 properties (C01 and C16 as partial structural claims, see DESIGN.md §13). All checks are static (technique family fixed by the task). quick = linux/amd64; thorough = linux/amd64+386+arm64 plus checker self-tests. Genuine defects found are repaired by fix: commits in /repo or listed in known_findings.json; see DESIGN.md §4.",
     }
     json.dump(m, open(os.path.join(ROOT, "MANIFEST.json"), "w"), indent=1)
     # validate
